@@ -1,6 +1,13 @@
 (* Line-oriented value syntax shared by the Go harness and the driver:
      value ::= int | [value,value,...] | T | F
    no spaces inside a value; a case line is  cmd value value ...  *)
+module S = Stdlib.String
+module L = Stdlib.List
+module A = Stdlib.Array
+module H = Stdlib.Hashtbl
+module B = Stdlib.Buffer
+module C = Stdlib.Char
+type ostring = string
 open Model
 
 type v = I of z | L of v list
@@ -11,40 +18,40 @@ let z_of_int (n : int) : z =
 
 let ten = z_of_int 10
 
-(* decimal string -> Z, any size *)
-let z_of_string (s : string) : z =
-  let neg = String.length s > 0 && s.[0] = '-' in
-  let start = if neg || (String.length s > 0 && s.[0] = '+') then 1 else 0 in
-  if String.length s - start <= 17 then z_of_int (int_of_string s)
+(* decimal ostring -> Z, any size *)
+let z_of_string (s : ostring) : z =
+  let neg = S.length s > 0 && s.[0] = '-' in
+  let start = if neg || (S.length s > 0 && s.[0] = '+') then 1 else 0 in
+  if S.length s - start <= 17 then z_of_int (int_of_string s)
   else begin
     let acc = ref Z0 in
-    for i = start to String.length s - 1 do
-      let d = Char.code s.[i] - 48 in
+    for i = start to S.length s - 1 do
+      let d = C.code s.[i] - 48 in
       if d < 0 || d > 9 then failwith ("bad int " ^ s);
       acc := Z.add (Z.mul !acc ten) (z_of_int d)
     done;
     if neg then Z.opp !acc else !acc
   end
 
-let rec pos_to_string_big (p : positive) : string =
+let rec pos_to_string_big (p : positive) : ostring =
   (* fall back: convert through repeated division is overkill; build a decimal
      by doubling a digit array *)
   let digits = ref [| 0 |] in
   let double_add bit =
     let carry = ref bit in
     let d = !digits in
-    for i = 0 to Array.length d - 1 do
+    for i = 0 to A.length d - 1 do
       let x = d.(i) * 2 + !carry in
       d.(i) <- x mod 10; carry := x / 10
     done;
-    if !carry > 0 then digits := Array.append d [| !carry |] in
+    if !carry > 0 then digits := A.append d [| !carry |] in
   let rec bits p acc = match p with
     | XH -> 1 :: acc | XO q -> bits q (0 :: acc) | XI q -> bits q (1 :: acc) in
-  List.iter double_add (bits p []);
+  L.iter double_add (bits p []);
   let d = !digits in
-  let b = Buffer.create 32 in
-  for i = Array.length d - 1 downto 0 do Buffer.add_char b (Char.chr (48 + d.(i))) done;
-  Buffer.contents b
+  let b = B.create 32 in
+  for i = A.length d - 1 downto 0 do B.add_char b (C.chr (48 + d.(i))) done;
+  B.contents b
 
 and pos_to_int_opt (p : positive) : int option =
   let rec go p depth = if depth > 61 then None else match p with
@@ -56,7 +63,7 @@ and pos_to_int_opt (p : positive) : int option =
 let pos_to_string p = match pos_to_int_opt p with
   | Some n -> string_of_int n | None -> pos_to_string_big p
 
-let z_to_string (x : z) : string = match x with
+let z_to_string (x : z) : ostring = match x with
   | Z0 -> "0" | Zpos p -> pos_to_string p | Zneg p -> "-" ^ pos_to_string p
 
 let z_to_int (x : z) : int = match x with
@@ -65,8 +72,8 @@ let z_to_int (x : z) : int = match x with
   | Zneg p -> (match pos_to_int_opt p with Some n -> -n | None -> failwith "z_to_int")
 
 (* parser *)
-let parse_value (s : string) : v =
-  let n = String.length s in
+let parse_value (s : ostring) : v =
+  let n = S.length s in
   let i = ref 0 in
   let rec value () =
     if !i >= n then failwith ("eof in " ^ s);
@@ -83,7 +90,7 @@ let parse_value (s : string) : v =
           else if !i < n && s.[!i] = ']' then (incr i; continue := false)
           else failwith ("bad list in " ^ s)
         done;
-        L (List.rev !items)
+        L (L.rev !items)
       end
     | 'T' -> incr i; I (z_of_int 1)
     | 'F' -> incr i; I Z0
@@ -91,7 +98,7 @@ let parse_value (s : string) : v =
       let st = !i in
       while !i < n && (match s.[!i] with '0'..'9' | '-' | '+' -> true | _ -> false) do incr i done;
       if !i = st then failwith ("bad value in " ^ s);
-      I (z_of_string (String.sub s st (!i - st)))
+      I (z_of_string (S.sub s st (!i - st)))
   in
   let r = value () in
   if !i <> n then failwith ("trailing in " ^ s);
@@ -100,16 +107,16 @@ let parse_value (s : string) : v =
 let zv = function I z -> z | L _ -> failwith "expected int"
 let lv = function L l -> l | I _ -> failwith "expected list"
 let bv x = match zv x with Z0 -> false | _ -> true
-let zlist x = List.map zv (lv x)
+let zlist x = L.map zv (lv x)
 let natv x = Z.to_nat (zv x)
 
 let rec show = function
   | I z -> z_to_string z
-  | L l -> "[" ^ String.concat "," (List.map show l) ^ "]"
+  | L l -> "[" ^ S.concat "," (L.map show l) ^ "]"
 
 let show_bool b = if b then "T" else "F"
-let show_zlist l = "[" ^ String.concat "," (List.map z_to_string l) ^ "]"
-let show_list f l = "[" ^ String.concat "," (List.map f l) ^ "]"
+let show_zlist l = "[" ^ S.concat "," (L.map z_to_string l) ^ "]"
+let show_list f l = "[" ^ S.concat "," (L.map f l) ^ "]"
 
 let show_res f = function
   | Ok a -> "ok " ^ f a
